@@ -1033,6 +1033,32 @@ def _term_collector(ctx, model):
            "every (base, exponent) entry goes to exactly one side" if ok_once else
            "split_term drops or duplicates an entry of the (base, exponent) "
            "table")
+    # the like-term key must not depend on the order the factors were written
+    rets = [r for r in ast.walk(st.node) if isinstance(r, ast.Return)
+            and isinstance(r.value, ast.Tuple) and len(r.value.elts) == 2]
+    key_e = rets[0].value.elts[0]
+    if isinstance(key_e, ast.Name):
+        key_e = _local_value(st.node, key_e.id)
+    if not isinstance(key_e, ast.Call):
+        raise AnalysisError("TermCollector.split_term: the term key is not built "
+                            "by a constructor call")
+    ctor = ast.unparse(key_e.func)
+    inner = key_e.args[0] if key_e.args else None
+    if ctor in ("frozenset", "immutabledict", "frozendict", "Map") or (
+            ctor in ("tuple", "list") and isinstance(inner, ast.Call)
+            and ast.unparse(inner.func) == "sorted"):
+        order_free = True
+    elif ctor in ("tuple", "list"):
+        order_free = False
+    else:
+        raise AnalysisError(f"TermCollector.split_term: term key built by "
+                            f"{ctor}(): not a constructor the rule knows")
+    ctx.ob("P/TermCollector.split_term/key-order-insensitive", order_free, loc,
+           f"the like-term key is a {ctor} of (base, exponent) pairs: x*y and "
+           "y*x get one key" if order_free else
+           f"the like-term key is a {ctor} of the (base, exponent) pairs in "
+           "the order the factors were written: x*y and y*x get different "
+           "keys and are not merged (expand((x+y)*(x-y)) keeps x*y - y*x)")
     # exponents of equal bases add up
     ok_acc = False
     for ps in summarize(st.node, node_param=False, loop_mode="1"):
